@@ -690,8 +690,18 @@ class Fn:
             return f"{pad}if {c} then\n{a}\n{pad}else\n{b}"
         # several paths fall through to the rest of the block: join them, carrying the variables assigned inside
         vs = self.assigned_in([s], env)
-        dropped = [v for v in vs if v not in env]      # temporaries of the branches; poisoned for the code after
-        vs = [v for v in vs if v in env]
+        def top_assigned(stmts):
+            out = set()
+            for st in stmts:
+                if isinstance(st, (ast.Assign, ast.AugAssign, ast.AnnAssign)):
+                    d = dotted(st.targets[0] if isinstance(st, ast.Assign) else st.target)
+                    if d:
+                        out.add(d)
+            return out
+        both = top_assigned(s.body) & top_assigned(s.orelse)
+        # temporaries of the branches are poisoned for the code after, unless both branches define them
+        dropped = [v for v in vs if v not in env and v not in both]
+        vs = [v for v in vs if v in env or v in both]
         names = [self.lean_name(v) for v in vs]
         tup = "(" + ", ".join(names) + ")" if names else "()"
         exits = self.has_exit([s])
@@ -700,7 +710,7 @@ class Fn:
         def yield_vars(env2, ind2):
             out = []
             for v in vs:
-                pre_t = env[v][1]
+                pre_t = env[v][1] if v in env else "Any:_"
                 e2, t2 = env2[v]
                 if pre_t in ("List:_", "Opt:_") and t2 != pre_t:
                     types[v] = t2
@@ -721,7 +731,7 @@ class Fn:
             self.join_depth -= 1
         env2 = dict(env)
         for v, n in zip(vs, names):
-            env2[v] = (n, types.get(v, env[v][1]))
+            env2[v] = (n, types.get(v) or env[v][1])
         for v in dropped:
             env2[v] = None
         vty = " × ".join(par(self.lean_ty(env2[v][1])) for v in vs) if vs else "Unit"
